@@ -1,4 +1,6 @@
 import RjModel.Lemmas.BossTraces
+import RjModel.Lemmas.ConfirmLemmas
+import RjModel.Props.C01
 import RjModel.Generated.Sites
 /-! # C02 — the source is never modified; nothing outside the destination is touched
 (boss side: which commands each doer can ever be sent) -/
@@ -35,6 +37,135 @@ theorem C02_ancestors_not_in_dry_run (w : Wrap) (sc : Scenario) (hd : sc.dryRun 
      fun h => by simp [hd] at h⟩
   intro h
   exact (run_ok w sc A).2 _ h rfl
+
+/-- **A kept destination entry is never written through.**  If the confirmation pass ends without error
+and the deletion of a destination entry that is *in the way of* a source entry (reason `incompatible`:
+e.g. a symlink where the source has a folder) was skipped, then no copy remains planned at that path
+or anywhere inside it — so nothing is created "inside" a kept symlink, i.e. outside the destination.
+(This is the repair of finding C02-F7a; before it the copies stayed in the plan.) -/
+theorem C02_kept_entry_blocks_copies (c c' : Conf) (del del' : OMap (Details × DelReason)) (cpy cpy' : OMap (Details × CopyReason))
+    (h : confirmActions c del cpy = (none, c', del', cpy'))
+    (p : String) (d : Details) (hp : del.get p = some (d, .incompatible)) (hs : del'.get p = none) :
+    ∀ k ∈ cpy'.keys, ¬ (k = p ∨ isInside k p = true) := by
+  unfold confirmActions at h
+  generalize hcd : confirmDeletes c del.iter [] = r1 at h
+  obtain ⟨e1, c1, rm⟩ := r1
+  cases e1 with
+  | some e => simp at h
+  | none =>
+    simp only at h
+    generalize hcc : confirmCopies c1 (removeAll cpy (blockedCopies del cpy rm)).iter [] = r2 at h
+    obtain ⟨e2, c2, rm2⟩ := r2
+    cases e2 with
+    | some e => simp at h
+    | none =>
+      simp only [Prod.mk.injEq, true_and] at h
+      obtain ⟨-, hd', hc'⟩ := h
+      -- the deletion at `p` was skipped: `p ∈ rm`
+      have hrm : p ∈ rm := by
+        have := removeAll_get del rm p
+        rw [hd', hs] at this
+        by_cases hm : p ∈ rm
+        · exact hm
+        · simp [hm, hp] at this
+      intro k hk hbad
+      rw [← hc'] at hk
+      obtain ⟨hv, hsome⟩ := (mem_keys_iff _ k).mp hk
+      rw [removeAll_vec, removeAll_vec] at hv
+      rw [removeAll_get, removeAll_get] at hsome
+      by_cases h2 : k ∈ rm2
+      · simp [h2] at hsome
+      · simp only [h2, ↓reduceIte] at hsome
+        by_cases h3 : k ∈ blockedCopies del cpy rm
+        · simp [h3] at hsome
+        · simp only [h3, ↓reduceIte] at hsome
+          apply h3
+          have hkk : k ∈ cpy.keys := (mem_keys_iff _ k).mpr ⟨hv, hsome⟩
+          simp only [blockedCopies, List.mem_filter, List.any_eq_true, Bool.or_eq_true, beq_iff_eq]
+          refine ⟨hkk, p, ⟨hrm, by simp [hp]⟩, ?_⟩
+          rcases hbad with e | e
+          · exact Or.inl e
+          · exact Or.inr e
+
+def isDelete : Cmd → Bool
+  | .deleteFile _ | .deleteFolder _ | .deleteSymlink .. => true
+  | _ => false
+
+theorem deleteLoop_dest (c : Ctx) (errAt : Option Nat) (l : List (String × (Details × DelReason))) (x : XState) (st : Stats) :
+    ∀ cmd ∈ (deleteLoop c errAt l x st).2.1.dest, cmd ∈ x.dest ∨ isDelete cmd = true := by
+  induction l generalizing x st with
+  | nil => intro cmd h; exact Or.inl h
+  | cons it rest ih =>
+    obtain ⟨p, d, r⟩ := it
+    simp only [deleteLoop]
+    have hstep : ∀ cmd ∈ ((delStepState c x p d).poll errAt).2.dest, cmd ∈ x.dest ∨ isDelete cmd = true := by
+      intro cmd h
+      simp only [XState.poll, delStepState] at h
+      by_cases hd : c.dryRun = true
+      · simp only [hd, ↓reduceIte, XState.info] at h; exact Or.inl h
+      · simp only [hd, Bool.false_eq_true, ↓reduceIte, XState.sendDest, List.mem_append, List.mem_singleton] at h
+        rcases h with h | h
+        · exact Or.inl h
+        · right; subst h; cases d <;> rfl
+    by_cases hp : ((delStepState c x p d).poll errAt).1 = true
+    · simp only [hp, ↓reduceIte]; exact hstep
+    · simp only [hp, Bool.false_eq_true, ↓reduceIte]
+      intro cmd h
+      rcases ih _ _ cmd h with h' | h'
+      · exact hstep cmd h'
+      · exact Or.inr h'
+
+theorem filter_mutating_deletes (l : List (String × (Details × DelReason))) :
+    ((l.map (fun it => deleteCmd it.1 it.2.1)).filter Cmd.mutating).length = l.length := by
+  induction l with
+  | nil => rfl
+  | cons it rest ih =>
+    obtain ⟨p, d, r⟩ := it
+    have : (deleteCmd p d).mutating = true := deleteCmd_mutating p d
+    simp [this, ih]
+
+/-- **A failed deletion is followed by no creation.**  If the destination command that the doer
+answers with an error is one of the deletions, then — whenever that answer becomes visible to the
+non-blocking polls — the boss sends nothing but deletions and the phase marker after what it had
+sent before the execution phase: no folder, link or file is created behind a deletion that failed
+(in particular not "inside" a symlink that could not be removed).  This is the repair of finding
+C02-F7b (barrier after the delete phase); before it the creations were already queued. -/
+theorem C02_failed_delete_blocks_creations (sc : Scenario) (ctx : Ctx) (x : XState) (conf : Conf)
+    (del : OMap (Details × DelReason)) (cpy : OMap (Details × CopyReason))
+    (hdry : ctx.dryRun = false) (k : Nat) (hk : sc.errCmd = some k)
+    (hge : (x.dest.filter Cmd.mutating).length ≤ k)
+    (hlt : k < (x.dest.filter Cmd.mutating).length + del.iter.length) :
+    ∀ c ∈ (execPhase sc ctx x conf del cpy).destTrace, c ∈ x.dest ∨ isDelete c = true ∨ c = .marker .copying := by
+  unfold execPhase
+  have hsub := deleteLoop_dest ctx sc.errAtPoll del.iter x {}
+  generalize hr : deleteLoop ctx sc.errAtPoll del.iter x {} = r1 at hsub
+  obtain ⟨e1, x1, st1⟩ := r1
+  cases e1 with
+  | some e =>
+    intro c hc
+    rcases hsub c hc with h | h
+    · exact Or.inl h
+    · exact Or.inr (Or.inl h)
+  | none =>
+    simp only
+    obtain ⟨htr, -⟩ := C01.C01_delete_trace ctx hdry sc.errAtPoll del.iter x x1 {} st1 hr
+    have hne : del.iter.isEmpty = false := by
+      cases hl : del.iter with
+      | nil => simp [hl] at hlt; omega
+      | cons a b => rfl
+    have hb : barrierFails sc ctx del (x1.sendDest (.marker .copying)) = true := by
+      simp only [barrierFails, hdry, hne, XState.failedSent, hk, XState.sendDest, htr, Bool.not_false, Bool.true_and,
+        List.filter_append, List.length_append, filter_mutating_deletes, decide_eq_true_eq]
+      simp [Cmd.mutating]
+      omega
+    rw [if_pos hb]
+    intro c hc
+    simp only [mkResult, XState.sendDest, List.mem_append, List.mem_singleton] at hc
+    rcases hc with hc | hc
+    · rcases hsub c hc with h | h
+      · exact Or.inl h
+      · exact Or.inr (Or.inl h)
+    · exact Or.inr (Or.inr hc)
 
 def exampleScenario : Scenario where
   srcRoot := "S"
